@@ -4,8 +4,8 @@ CONSTANTS
   MeshDef <- MeshDefs
   DofNs = {1, 2}
   Orders <- OrdersAll
-  Patterns <- PatternsAll
-  MaxAsm = 3
+  Patterns <- PatternsTwo
+  MaxAsm = 2
   Complex = {"real", "all", "tail"}
   Defect = "none"
   Emit = FALSE
